@@ -115,6 +115,25 @@ def gen_authz(tier, seed, workdir):
     return scheds
 
 
+def canon_authz(workdir):
+    """Always-run directed C36 schedules (Canon_TransferAuthz.tla: boundary tours over a fixed family of grants; the
+    module asserts that the tours reach their targets according to the specification)."""
+    d = vk.scratch_spec(SPEC_DIR)
+    out = os.path.join(workdir, "az_canon.json")
+    cfg = os.path.join(d, "Canon_az.cfg")
+    vk.write_cfg(cfg, "Spec", dict(OutFile=out))
+    vk.tlc_mc(d, "Canon_TransferAuthz", cfg, workers=1, timeout=900, reuse=False)   # run for its side effect (JsonSerialize)
+    shutil.rmtree(d, ignore_errors=True)
+    scheds = json.load(open(out))
+    if len(scheds) < 5 or not all(s.get("acts") for s in scheds):
+        raise vk.Infra("canonical authz schedules missing")
+    for i, s in enumerate(scheds):
+        s["id"] = "az-canon-%d" % i
+        s["sub"] = "authz"
+        s["canon"] = True
+    return scheds
+
+
 def gen_enumerated(tier, seed, workdir):
     """C40 and C46 cases: complete enumerations written once by TLC (Gen_Callbacks / Gen_Auth)."""
     sz = sizes(tier)
@@ -216,17 +235,20 @@ def validate(sub, lines, workdir, tag):
 # ------------------------------------------------------------------------------------------ coverage (counting only)
 
 def cov_authz(lines, cov, sigs):
-    pre = None
+    pre, pre_spent = None, {}
     for l in lines:
         d = json.loads(l)
         a = d["a"]
         if a.get("a") == "Init":
             pre = d["st"]
+            pre_spent = {}
             continue
         reqs = a["reqs"]
         res = d["res"]
         post = d["st"]
         cov["authz:Exec:%s" % res] += 1
+        if "canon" in d["tr"]:
+            cov["authz:canon:%s" % res] += 1
         if len(reqs) > 1:
             cov["authz:batch:%s" % res] += 1
         for r in reqs:
@@ -236,6 +258,15 @@ def cov_authz(lines, cov, sigs):
                 cov["authz:sentinel-%s:%s" % ("unbounded" if lim < 0 else "bounded", res)] += 1
             elif lim >= 0 and al["on"] and r["amt"] > lim:
                 cov["authz:over-limit:%s" % res] += 1
+            if al["on"] and lim >= 0 and any(v < 0 for v in al["lim"].values()):
+                cov["authz:bounded-next-to-unbounded:%s" % res] += 1      # mixed allocation: request on its bounded / absent denomination
+            if al["on"] and lim > 0 and r["amt"] == lim and len(reqs) == 1:
+                other = [c for c in ("c0", "c1") if c != r["ch"] and pre["al"][c]["on"]]
+                rest = [v for k, v in al["lim"].items() if k != r["denom"] and v != 0]
+                if not rest:
+                    cov["authz:exact-exhaustion-%s:%s" % ("other-allocation-stays" if other else "last-allocation", res)] += 1
+            if al["on"] and al["allow"] and r["rcv"] not in al["allow"] and pre_spent.get(r["ch"]):
+                cov["authz:receiver-not-listed-after-partial-spend:%s" % res] += 1
             if not al["on"]:
                 cov["authz:no-allocation:%s" % res] += 1
             elif al["allow"] and r["rcv"] not in al["allow"]:
@@ -249,6 +280,8 @@ def cov_authz(lines, cov, sigs):
             sigs["C36"].add((res, len(reqs), r["amt"] < 0, lim < 0, (r["amt"] > lim) if lim >= 0 else None, bool(al["on"]), bool(al["allow"]),
                              r["rcv"] in al["allow"], tuple(al["memos"]), r["memo"]))
         if res == "ok":
+            for r in reqs:
+                pre_spent[r["ch"]] = True
             for c in ("c0", "c1"):
                 if pre["al"][c]["on"] and not post["al"][c]["on"]:
                     cov["authz:allocation-removed"] += 1
@@ -307,10 +340,12 @@ FLOORS = {
     "C36": ["authz:Exec:ok", "authz:Exec:err", "authz:batch:ok", "authz:batch:err", "authz:sentinel-unbounded:ok", "authz:sentinel-bounded:err",
             "authz:over-limit:err", "authz:no-allocation:err", "authz:receiver-not-listed:err", "authz:receiver-listed:ok",
             "authz:memo-with-empty-list:err", "authz:memo-against-list:ok", "authz:memo-against-list:err", "authz:allocation-removed",
-            "authz:grant-deleted"],
+            "authz:grant-deleted", "authz:canon:ok", "authz:canon:err", "authz:bounded-next-to-unbounded:ok", "authz:bounded-next-to-unbounded:err",
+            "authz:exact-exhaustion-other-allocation-stays:ok", "authz:exact-exhaustion-last-allocation:ok",
+            "authz:receiver-not-listed-after-partial-spend:err"],
     "C40": ["cb:v1:send:ok:ok", "cb:send:fail:err", "cb:ack:fail:ok", "cb:ack:fail:abort", "cb:timeout:fail:ok", "cb:timeout:fail:abort",
             "cb:recv:fail:ok", "cb:recv:fail:abort", "cb:writeAck:fail:ok", "cb:writeAck:fail:abort", "cb:v2:ack:panic:ok", "cb:v2:recv:err:ok",
-            "cb:v1:ack:oog:ok", "cb:v1:ack:oog:abort", "cb:gas:below:hi", "cb:gas:above:lo", "cbfn:ok", "cbfn:retry:True", "cbfn:retry:False"],
+            "cb:v1:ack:oog:ok", "cb:v1:ack:oog:abort", "cb:gas:below:hi", "cb:gas:above:lo", "cb:gas:ample:hi", "cbfn:ok", "cbfn:retry:True", "cbfn:retry:False"],
     "C46": ["auth:RecoverClient:authority:ok", "auth:RecoverClient:stranger:err", "auth:IBCSoftwareUpgrade:authority:ok",
             "auth:UpdateClientParams:creator:err", "auth:UpdateConnectionParams:authority:ok", "auth:TransferParams:stranger:err",
             "auth:ICAHostParams:authority:ok", "auth:ICAControllerParams:relayer:err", "auth:RLAdd:authority:ok", "auth:RLRemove:stranger:err",
@@ -346,9 +381,13 @@ def run_family(tier, seed, binary=None):
     def g1():
         gen["az"] = gen_authz(tier, seed, workdir)
 
+    def g3():
+        gen["azc"] = canon_authz(workdir)
+
     def g2():
         gen["tx"], gen["fn"], gen["au"], gen["info"] = gen_enumerated(tier, seed, workdir)
-    vk.pmap(lambda f: f(), [g1, g2], 2)
+    vk.pmap(lambda f: f(), [g1, g2, g3], 3)
+    gen["az"] = gen["azc"] + gen["az"]       # the directed schedules first: they run on every seed
     vk.log("authapps: generated %d authz schedules, %d+%d callback cases, %d auth transitions (%.1fs)" %
            (len(gen["az"]), len(gen["tx"]), len(gen["fn"]), len(gen["au"]), time.time() - t0))
     items = {"authz": gen["az"], "cb": gen["tx"], "cbfn": gen["fn"], "auth": gen["au"]}
